@@ -99,6 +99,12 @@ def pairOkB (a b : Access) : Bool := !conflictB a b || orderedB a b
 def raceFreeB (tbl : List Access) : Bool :=
   tbl.all fun a => tbl.all fun b => pairOkB a b
 
+/-- Same decision with less work for the kernel: only rows that are live writes need to be paired
+with every row (a conflict needs a write, a constructor-phase row is ordered with everything, and
+`ordered` is symmetric) — see `raceFreeW_iff`. -/
+def raceFreeW (tbl : List Access) : Bool :=
+  (tbl.filter fun a => a.kind == Kind.W && a.phase == Phase.live).all fun a => tbl.all fun b => pairOkB a b
+
 /-- The unordered conflicting pairs of a table (indices), what the static monitor reports. -/
 def badPairs (tbl : List Access) : List (Nat × Nat) :=
   let idx := tbl.zipIdx
